@@ -1,118 +1,33 @@
 /-
-Tier F (FIFO delivery), part A: list facts, frame lemmas and the specification of `notifyEvent`
-that the preservation proof of `InvFifo` needs.
+Tier L (liveness bookkeeping, any event order; `InvLive`, SchedLiveDefs.lean), part A: frame lemmas and the
+specification of `notifyEvent` that the preservation proof needs.
 -/
 import EkwVerif.Lemmas.SchedInvDefs
 import EkwVerif.Lemmas.CtrlFinal
 
 namespace EkwVerif.Ctrl
 
-/-- extra conjunct needed to make `InvFifo.tracker_sound` inductive: trackers have no duplicates -/
-structure InvFifoX (s : Sys) : Prop where
+/-- extra conjunct needed to make `InvLive.tracker_sound` inductive: trackers have no duplicates -/
+structure InvLiveX (s : Sys) : Prop where
   tracker_nodup : ∀ t, (s.ctl.tracker t).Nodup
-
-/-! ### the selector of `pendingOuts` -/
-
-def sF_sel (t : Task) : Event → Option Nat
-  | .pubW _ ds => if ds.task == t then some ds.out else none
-  | _ => none
-
-theorem sF_sel_noticeOf (t : Task) : noticeOf t = sF_sel t := by
-  funext ev; cases ev <;> rfl
-
-theorem sF_sel_eq (t : Task) :
-    (fun ev : Event => match ev with
-      | .pubW _ ds => if ds.task == t then some ds.out else none
-      | _ => none) = sF_sel t := by
-  funext ev; cases ev <;> rfl
-
-theorem sF_po (s : Sys) (t : Task) :
-    pendingOuts s t = s.inbox.filterMap (sF_sel t) ++ s.env.pending.filterMap (sF_sel t) := by
-  unfold pendingOuts Sys.allEv
-  rw [List.filterMap_append]
-  congr 1 <;> (apply List.filterMap_congr; intro ev _; cases ev <;> rfl)
-
-theorem sF_sel_some (t : Task) (ev : Event) (k : Nat) :
-    sF_sel t ev = some k ↔ ∃ w, ev = Event.pubW w ⟨t, k⟩ := by
-  cases ev with
-  | pubW w ds =>
-    obtain ⟨a, b⟩ := ds
-    simp only [sF_sel]
-    constructor
-    · intro h
-      split at h
-      · rename_i hc
-        simp only [beq_iff_eq] at hc
-        simp only [Option.some.injEq] at h
-        subst hc; subst h; exact ⟨w, rfl⟩
-      · cases h
-    · rintro ⟨w', h⟩
-      simp only [Event.pubW.injEq, Ds.mk.injEq] at h
-      obtain ⟨_, rfl, rfl⟩ := h
-      simp
-  | pubT h ds => simp [sF_sel]
-  | payload ds v => simp [sF_sel]
-
-theorem sF_sel_pubW_other (t : Task) (w : Worker) (ds : Ds) (h : ds.task ≠ t) : sF_sel t (.pubW w ds) = none := by
-  simp [sF_sel, h]
-
-theorem sF_sel_pubW_same (w : Worker) (ds : Ds) : sF_sel ds.task (.pubW w ds) = some ds.out := by
-  simp [sF_sel]
-
-theorem sF_sel_pubT (t : Task) (h : Host) (ds : Ds) : sF_sel t (.pubT h ds) = none := rfl
-theorem sF_sel_payload (t : Task) (ds : Ds) (v : Val) : sF_sel t (.payload ds v) = none := rfl
-
-/-- the notices published by a run of `t`, seen by the selector of `t'` -/
-theorem sF_sel_outputs (j : Job) (w : Worker) (t t' : Task) :
-    ((j.outputsOf t).map (fun ds => Event.pubW w ds)).filterMap (sF_sel t') =
-      if t = t' then List.range (j.nOut t) else [] := by
-  unfold Job.outputsOf
-  generalize List.range (j.nOut t) = l
-  induction l with
-  | nil => simp
-  | cons a l ih =>
-    simp only [List.map_cons, List.filterMap_cons]
-    by_cases h : t = t'
-    · subst h
-      simp only [sF_sel, beq_self_eq_true, ↓reduceIte] at ih ⊢
-      rw [ih]
-    · simp only [sF_sel, beq_iff_eq, h, ↓reduceIte] at ih ⊢
-      exact ih
-
-theorem sF_drop_range_cons (n m x : Nat) (l : List Nat) (h : (List.range n).drop m = x :: l) :
-    x = m ∧ m < n ∧ l = (List.range n).drop (m + 1) := by
-  by_cases hm : m < n
-  · rw [List.drop_eq_getElem_cons (by simpa using hm)] at h
-    simp only [List.getElem_range, List.cons.injEq] at h
-    exact ⟨h.1.symm, hm, h.2.symm⟩
-  · rw [List.drop_of_length_le (by simp; omega)] at h
-    cases h
-
-theorem sF_takeEvents_prefix : ∀ (k : Nat) (l : List Event), takeEvents l (l.take k) = some (l.drop k)
-  | 0, l => by simp [takeEvents]
-  | k + 1, [] => by simp [takeEvents]
-  | k + 1, a :: l => by
-    simp only [List.take_succ_cons, takeEvents, List.contains_cons, beq_self_eq_true, Bool.true_or, ↓reduceIte,
-      List.erase_cons_head, List.drop_succ_cons]
-    exact sF_takeEvents_prefix k l
 
 /-! ### environment frames -/
 
-theorem sF_applyCmd_frame (j : Job) (cl : Cluster) (e : Env) (cmd : Cmd) :
+theorem sL_applyCmd_frame (j : Job) (cl : Cluster) (e : Env) (cmd : Cmd) :
     (applyCmd j cl e cmd).pending = e.pending ∧ (applyCmd j cl e cmd).ran = e.ran := by
   cases cmd <;> simp [applyCmd]
 
-theorem sF_applyCmds_frame (j : Job) (cl : Cluster) (l : List Cmd) (e : Env) :
+theorem sL_applyCmds_frame (j : Job) (cl : Cluster) (l : List Cmd) (e : Env) :
     (applyCmds j cl e l).pending = e.pending ∧ (applyCmds j cl e l).ran = e.ran := by
   induction l generalizing e with
   | nil => exact ⟨rfl, rfl⟩
   | cons x l ih =>
     have h1 := ih (applyCmd j cl e x)
-    have h2 := sF_applyCmd_frame j cl e x
+    have h2 := sL_applyCmd_frame j cl e x
     simp only [applyCmds, List.foldl_cons] at h1 ⊢
     exact ⟨h1.1.trans h2.1, h1.2.trans h2.2⟩
 
-theorem sF_markDelivered_frame (l : List Event) (e : Env) :
+theorem sL_markDelivered_frame (l : List Event) (e : Env) :
     (markDelivered e l).pending = e.pending ∧ (markDelivered e l).ran = e.ran := by
   induction l generalizing e with
   | nil => simp [markDelivered]
@@ -122,7 +37,7 @@ theorem sF_markDelivered_frame (l : List Event) (e : Env) :
 
 /-! ### controller frames -/
 
-theorem sF_planOne_frames (j : Job) (c c' : Ctl) (a : Asg) (prep : List (Ds × Host)) (h : planOne j c a prep = .ok c') :
+theorem sL_planOne_frames (j : Job) (c c' : Ctl) (a : Asg) (prep : List (Ds × Host)) (h : planOne j c a prep = .ok c') :
     c'.announced = c.announced ∧ c'.doneC = c.doneC := by
   have fold : ∀ (l : List Ds) (w : Worker) (c0 : Ctl),
       let r := l.foldl (fun c ds => setPreparingAt c ds w) c0
@@ -151,7 +66,7 @@ theorem sF_planOne_frames (j : Job) (c c' : Ctl) (a : Asg) (prep : List (Ds × H
       dsimp only at h1 h2
       exact ⟨by simp [h2.1, h1.1], by simp [h2.2, h1.2]⟩
 
-theorem sF_assignOne_frames (j : Job) (cl : Cluster) (c c' : Ctl) (a : Asg) (p : List (Ds × Host))
+theorem sL_assignOne_frames (j : Job) (cl : Cluster) (c c' : Ctl) (a : Asg) (p : List (Ds × Host))
     (hr : assignOne j cl c a = .ok (c', p)) :
     c'.announced = c.announced ∧ c'.doneC = c.doneC ∧ c'.tracked = c.tracked ∧ c'.tracker = c.tracker ∧
     c'.computable = c.computable.erase a.task := by
@@ -172,7 +87,7 @@ theorem sF_assignOne_frames (j : Job) (cl : Cluster) (c c' : Ctl) (a : Asg) (p :
 
 /-! ### `consider_computable`: what happens to the trackers -/
 
-theorem sF_considerChild_spec (c : Ctl) (ds : Ds) (ch : Task) :
+theorem sL_considerChild_spec (c : Ctl) (ds : Ds) (ch : Task) :
     (∀ t, (c.tracker t).Nodup → ((considerChild c ds ch).tracker t).Nodup) ∧
     (∀ t, (t ∈ c.computable ∨ (c.tracked t = true ∧ ∃ d, d ∈ c.tracker t)) →
       (t ∈ (considerChild c ds ch).computable ∨
@@ -239,7 +154,7 @@ theorem sF_considerChild_spec (c : Ctl) (ds : Ds) (ch : Task) :
     apply hc
     simp [ht, hd]
 
-theorem sF_fold_spec (ds : Ds) (l : List Task) (c : Ctl) :
+theorem sL_fold_spec (ds : Ds) (l : List Task) (c : Ctl) :
     (∀ t, (c.tracker t).Nodup → ((l.foldl (fun c ch => considerChild c ds ch) c).tracker t).Nodup) ∧
     (∀ t, (t ∈ c.computable ∨ (c.tracked t = true ∧ ∃ d, d ∈ c.tracker t)) →
       (t ∈ (l.foldl (fun c ch => considerChild c ds ch) c).computable ∨
@@ -253,7 +168,7 @@ theorem sF_fold_spec (ds : Ds) (l : List Task) (c : Ctl) :
     refine ⟨fun t hn => hn, fun t ht => ht, fun t d ht hd => ⟨ht, hd, fun h => by cases h⟩⟩
   | cons a l ih =>
     simp only [List.foldl_cons]
-    obtain ⟨a1, a2, a3⟩ := sF_considerChild_spec c ds a
+    obtain ⟨a1, a2, a3⟩ := sL_considerChild_spec c ds a
     obtain ⟨b1, b2, b3⟩ := ih (considerChild c ds a)
     refine ⟨fun t hn => b1 t (a1 t hn), fun t ht => b2 t (a2 t ht), ?_⟩
     intro t d ht hd
@@ -265,7 +180,7 @@ theorem sF_fold_spec (ds : Ds) (l : List Task) (c : Ctl) :
     · exact y3 rfl hn
     · exact x3 hmem (a1 t hn)
 
-theorem sF_considerComputable_spec (c : Ctl) (ds : Ds) :
+theorem sL_considerComputable_spec (c : Ctl) (ds : Ds) :
     (∀ t, (c.tracker t).Nodup → ((considerComputable c ds).tracker t).Nodup) ∧
     (∀ t, (t ∈ c.computable ∨ (c.tracked t = true ∧ ∃ d, d ∈ c.tracker t)) →
       (t ∈ (considerComputable c ds).computable ∨
@@ -275,7 +190,7 @@ theorem sF_considerComputable_spec (c : Ctl) (ds : Ds) :
         (c.ptracked ds = true → t ∈ c.ptrack ds → (c.tracker t).Nodup → d ≠ ds)) := by
   unfold considerComputable
   dsimp only
-  obtain ⟨a1, a2, a3⟩ := sF_fold_spec ds (if c.ptracked ds = true then c.ptrack ds else []) c
+  obtain ⟨a1, a2, a3⟩ := sL_fold_spec ds (if c.ptracked ds = true then c.ptrack ds else []) c
   refine ⟨a1, a2, ?_⟩
   intro t d ht hd
   obtain ⟨x1, x2, x3⟩ := a3 t d ht hd
@@ -286,28 +201,28 @@ theorem sF_considerComputable_spec (c : Ctl) (ds : Ds) :
 /-! ### `notifyEvent` -/
 
 /-- the dataset an event announces -/
-def sF_evDs : Event → Option Ds
+def sL_evDs : Event → Option Ds
   | .pubW _ ds => some ds
   | .pubT _ ds => some ds
   | .payload _ _ => none
 
 /-- trackers, computable, announced across one notified event -/
-theorem sF_notifyEvent_track (j : Job) (c c' : Ctl) (ev : Event) (h : notifyEvent j c ev = .ok c') :
+theorem sL_notifyEvent_track (j : Job) (c c' : Ctl) (ev : Event) (h : notifyEvent j c ev = .ok c') :
     (∀ t, (c.tracker t).Nodup → (c'.tracker t).Nodup) ∧
     (∀ t, (t ∈ c.computable ∨ (c.tracked t = true ∧ ∃ d, d ∈ c.tracker t)) →
       (t ∈ c'.computable ∨ (c'.tracked t = true ∧ ∃ d, d ∈ c'.tracker t))) ∧
     (∀ t d, c'.tracked t = true → d ∈ c'.tracker t →
       c.tracked t = true ∧ d ∈ c.tracker t ∧
-        (∀ ds, sF_evDs ev = some ds → c.ptracked ds = true → t ∈ c.ptrack ds → (c.tracker t).Nodup → d ≠ ds)) ∧
-    (∀ d, c'.announced d = true ↔ (c.announced d = true ∨ sF_evDs ev = some d)) := by
+        (∀ ds, sL_evDs ev = some ds → c.ptracked ds = true → t ∈ c.ptrack ds → (c.tracker t).Nodup → d ≠ ds)) ∧
+    (∀ d, c'.announced d = true ↔ (c.announced d = true ∨ sL_evDs ev = some d)) := by
   cases ev with
   | payload ds v =>
     simp only [notifyEvent, Except.ok.injEq] at h; subst h
     refine ⟨fun t hn => hn, fun t ht => ht, fun t d ht hd => ⟨ht, hd, fun ds hx => by cases hx⟩, ?_⟩
-    intro d; simp [sF_evDs]
+    intro d; simp [sL_evDs]
   | pubT hst ds =>
     simp only [notifyEvent, Except.ok.injEq] at h; subst h
-    obtain ⟨a1, a2, a3⟩ := sF_considerComputable_spec (considerFetch j (markAvailable c hst ds) ds hst) ds
+    obtain ⟨a1, a2, a3⟩ := sL_considerComputable_spec (considerFetch j (markAvailable c hst ds) ds hst) ds
     simp only [considerFetch_tracker, markAvailable_tracker, considerFetch_tracked, markAvailable_tracked,
       considerFetch_computable, markAvailable_computable, considerFetch_ptrack, markAvailable_ptrack,
       considerFetch_ptracked, markAvailable_ptracked] at a1 a2 a3
@@ -316,36 +231,36 @@ theorem sF_notifyEvent_track (j : Job) (c c' : Ctl) (ev : Event) (h : notifyEven
       obtain ⟨x1, x2, x3⟩ := a3 t d ht hd
       refine ⟨x1, x2, ?_⟩
       intro ds' hds'
-      simp only [sF_evDs, Option.some.injEq] at hds'
+      simp only [sL_evDs, Option.some.injEq] at hds'
       subst hds'
       exact x3
     · intro d
-      simp only [considerComputable_announced, considerFetch_announced, markAvailable, sF_evDs, Option.some.injEq]
+      simp only [considerComputable_announced, considerFetch_announced, markAvailable, sL_evDs, Option.some.injEq]
       by_cases hd : d = ds
       · subst hd; simp
       · simp [hd, Ne.symm hd]
   | pubW w ds =>
-    obtain ⟨a1, a2, a3⟩ := sF_considerComputable_spec (considerFetch j (markAvailable c w.host ds) ds w.host) ds
+    obtain ⟨a1, a2, a3⟩ := sL_considerComputable_spec (considerFetch j (markAvailable c w.host ds) ds w.host) ds
     simp only [considerFetch_tracker, markAvailable_tracker, considerFetch_tracked, markAvailable_tracked,
       considerFetch_computable, markAvailable_computable, considerFetch_ptrack, markAvailable_ptrack,
       considerFetch_ptracked, markAvailable_ptracked] at a1 a2 a3
     have hann : ∀ d, (considerComputable (considerFetch j (markAvailable c w.host ds) ds w.host) ds).announced d = true ↔
-        (c.announced d = true ∨ sF_evDs (Event.pubW w ds) = some d) := by
+        (c.announced d = true ∨ sL_evDs (Event.pubW w ds) = some d) := by
       intro d
-      simp only [considerComputable_announced, considerFetch_announced, markAvailable, sF_evDs, Option.some.injEq]
+      simp only [considerComputable_announced, considerFetch_announced, markAvailable, sL_evDs, Option.some.injEq]
       by_cases hd : d = ds
       · subst hd; simp
       · simp [hd, Ne.symm hd]
     have a3' : ∀ t d, (considerComputable (considerFetch j (markAvailable c w.host ds) ds w.host) ds).tracked t = true →
         d ∈ (considerComputable (considerFetch j (markAvailable c w.host ds) ds w.host) ds).tracker t →
         c.tracked t = true ∧ d ∈ c.tracker t ∧
-        (∀ ds', sF_evDs (Event.pubW w ds) = some ds' → c.ptracked ds' = true → t ∈ c.ptrack ds' →
+        (∀ ds', sL_evDs (Event.pubW w ds) = some ds' → c.ptracked ds' = true → t ∈ c.ptrack ds' →
           (c.tracker t).Nodup → d ≠ ds') := by
       intro t d ht hd
       obtain ⟨x1, x2, x3⟩ := a3 t d ht hd
       refine ⟨x1, x2, ?_⟩
       intro ds' hds'
-      simp only [sF_evDs, Option.some.injEq] at hds'
+      simp only [sL_evDs, Option.some.injEq] at hds'
       subst hds'
       exact x3
     simp only [notifyEvent] at h
@@ -357,18 +272,22 @@ theorem sF_notifyEvent_track (j : Job) (c c' : Ctl) (ev : Event) (h : notifyEven
         have e2 := completeInputs_tracked _ _ _ _ _ hc2
         have e3 := completeInputs_computable _ _ _ _ _ hc2
         have e4 := completeInputs_announced _ _ _ _ _ hc2
+        simp only [markPublished_tracker, markPublished_tracked, markPublished_computable, markPublished_announced] at e1 e2 e3 e4
         split at h
         · simp only [Except.ok.injEq] at h; subst h
           simp only [e1, e2, e3, e4]
           exact ⟨a1, a2, a3', hann⟩
         · cases h
     · simp only [Except.ok.injEq] at h; subst h
+      simp only [markPublished_tracker, markPublished_tracked, markPublished_computable, markPublished_announced]
       exact ⟨a1, a2, a3', hann⟩
 
-/-- completion bookkeeping across one notified event -/
-theorem sF_notifyEvent_done (j : Job) (c c' : Ctl) (ev : Event) (h : notifyEvent j c ev = .ok c') :
+/-- completion bookkeeping across one notified event: the completions, `idle` and `ongoing` move only when a worker's
+notice completes its task, i.e. when the notices of ALL outputs of the task have then been processed -/
+theorem sL_notifyEvent_done (j : Job) (c c' : Ctl) (ev : Event) (h : notifyEvent j c ev = .ok c') :
     (c'.doneC = c.doneC ∧ c'.idle = c.idle ∧ c'.ongoing = c.ongoing) ∨
-    (∃ w ds, ev = Event.pubW w ds ∧ j.isLast ds = true ∧ c'.doneC = upd c.doneC ds.task true ∧
+    (∃ w ds, ev = Event.pubW w ds ∧ (∀ k, k < j.nOut ds.task → c'.published ⟨ds.task, k⟩ = true) ∧
+       c'.doneC = upd c.doneC ds.task true ∧
        (w, ds.task) ∈ c.ongoing ∧ c'.ongoing = c.ongoing.erase (w, ds.task) ∧
        c'.idle = (if (c.ongoing.erase (w, ds.task)).any (·.1 == w) || c.idle.contains w then c.idle
                   else c.idle ++ [w])) := by
@@ -378,20 +297,24 @@ theorem sF_notifyEvent_done (j : Job) (c c' : Ctl) (ev : Event) (h : notifyEvent
   | pubW w ds =>
     simp only [notifyEvent] at h
     split at h
-    · rename_i hlast
+    · rename_i hall
+      have hall' := (allPublished_iff j _ ds.task).mp hall
       split at h
       · cases h
       · rename_i c2 hc2
+        have e0 := completeInputs_published _ _ _ _ _ hc2
         have e1 := completeInputs_doneC _ _ _ _ _ hc2
         have e2 := completeInputs_idle _ _ _ _ _ hc2
         have e3 := completeInputs_ongoing _ _ _ _ _ hc2
-        simp only [considerComputable_doneC, considerFetch_doneC, markAvailable_doneC,
+        simp only [markPublished_doneC, markPublished_idle, markPublished_ongoing,
+          considerComputable_doneC, considerFetch_doneC, markAvailable_doneC,
           considerComputable_idle, considerFetch_idle, markAvailable_idle,
           considerComputable_ongoing, considerFetch_ongoing, markAvailable_ongoing] at e1 e2 e3
         split at h
         · rename_i hin
           simp only [Except.ok.injEq] at h; subst h
-          refine Or.inr ⟨w, ds, rfl, hlast, by simp [e1], ?_, by simp [e3], ?_⟩
+          refine Or.inr ⟨w, ds, rfl, ?_, by simp [e1], ?_, by simp [e3], ?_⟩
+          · intro k hk; simp only [e0]; exact hall' k hk
           · rw [← e3]; simpa using hin
           · simp only [e2, e3]
         · cases h
